@@ -126,6 +126,7 @@ class IK_constrained_solver(_SolverBase):
 @register
 class IK_free_solver(_SolverBase):
     """IKinSpace (port of the reference): success => |angular part| <= eomg and |linear part| <= ev"""
+    prop = ('C07', 'C02')
     target = MR + ':IKinSpace'
 
     def prepare(self):
@@ -155,3 +156,106 @@ class IK_free_solver(_SolverBase):
 
 register(type('IK_constrained_solver_1', (IK_constrained_solver,), dict(n=1, shape_bound='1 joint (invariant independent of chain length)')))
 register(type('IK_constrained_solver_2', (IK_constrained_solver,), dict(n=2, tier='thorough')))
+
+
+# ---------------------------------------------------------------------------------------------------
+# Arm level: state write-back of Arm.IK / Arm.constrainedIK, solvers replaced by their contracts
+
+from .l3_arm import ArmFixture, ARM as _ARM      # noqa: E402
+from .l2_screw_wrench import frame as _frame      # noqa: E402
+from pyvc import stubs as _stubs                 # noqa: E402
+
+
+class _ArmIK(Contract):
+    """the solver is replaced by its contract (proved above): it returns SOME joint vector and SOME success flag,
+    deterministically in its arguments; whatever it returns, the arm must (i) pass its own rotation / position
+    tolerances in the right places, (ii) on success hold exactly the returned joint vector and report the goal as its
+    tool pose, (iii) on failure report the pose of the joint vector it stores"""
+    prop = 'C07'
+    n = 2
+    constrained = False
+    max_paths = 400
+    timeout = 40.0
+    tol = 1e-7
+    shape_bound = 'fixed 2-joint geometry (rational data), arbitrary goal, start and solver outcome'
+
+    def prepare(self):
+        _stubs.install()
+
+    def setup(self, g):
+        return (), {}
+
+    def run(self, g, fn, args, kwargs):
+        if not g.symbolic:
+            raise NotImplementedError
+        fx = ArmFixture(g, self.n, base_identity=True, fixed_geometry=True)
+        a = fx.arm
+        fmr = g.module(FHP)
+        goal, Mg = _frame(g, 'G')
+        th0 = g.arr(g.reals('s', self.n, lo=-3.0, hi=3.0))
+        calls = []
+        memo = []
+
+        def solver(name, theta0, tols, lims=None):
+            key = tuple(T.SR.lift(x) for x in npx.asarray(theta0).reshape(-1))
+            for k0, res in memo:
+                if len(k0) == len(key) and all(x is y for x, y in zip(k0, key)):
+                    calls.append(dict(name=name, tols=tols, theta=res[0], success=res[1], repeat=True))
+                    return res[0].copy(), res[1]
+            k = len(memo)
+            th = npx.array([T.SR.var('sol%d_%d' % (k, j)) for j in range(self.n)], dtype=float)
+            ok = T.bvar('solver_success_%d' % k)
+            for j in range(self.n):
+                # solutions are reported modulo nothing: keep them inside (-2 pi, 2 pi) so that angleMod is the identity
+                g.ctx.assume(T.sand(T.le(-6.0, th[j]), T.le(th[j], 6.0)), tag='solver result range (assumed)')
+                if lims is not None:
+                    g.ctx.assume(T.sand(T.le(lims[0][j], th[j]), T.le(th[j], lims[1][j])), tag='callee contract: result inside the limits')
+            memo.append((key, (th, ok)))
+            calls.append(dict(name=name, tols=tols, theta=th, success=ok, repeat=False))
+            return th.copy(), ok
+
+        def IKinSpace(Slist, M, Tg, thetalist0, eomg, ev, max_iters=20):
+            return solver('IKinSpace', thetalist0, (eomg, ev))
+
+        def IKinSpaceConstrained(Slist, M, Tg, theta_list, position_tolerance, rotation_tolerance, joint_mins, joint_maxs, max_iterations):
+            return solver('IKinSpaceConstrained', theta_list, (rotation_tolerance, position_tolerance), (joint_mins, joint_maxs))
+        old = (fmr.IKinSpace, fmr.IKinSpaceConstrained)
+        fmr.IKinSpace, fmr.IKinSpaceConstrained = IKinSpace, IKinSpaceConstrained
+        try:
+            if self.constrained:
+                theta, success = a.constrainedIK(goal, th0.copy(), True, 1)
+            else:
+                theta, success = a.IK(goal, th0.copy(), True, 2, 30, True)
+        finally:
+            fmr.IKinSpace, fmr.IKinSpaceConstrained = old
+        return fx, theta, success, calls, Mg
+
+    def post(self, g, out, args, kwargs):
+        fx, theta, success, calls, Mg = out
+        a = fx.arm
+        z = ' [a rotation vector of norm below 1e-6 went through the exponential cut-off]' if _stubs.ghost_of(g.ctx).cutoff_hits else ''
+        g.holds('the solver was called', len(calls) >= 1)
+        for c in calls:
+            g.eq('%s receives the arm\'s rotation tolerance for the angular part' % c['name'], c['tols'][0], a.rot_tolerance)
+            g.eq('%s receives the arm\'s position tolerance for the linear part' % c['name'], c['tols'][1], a.pos_tolerance)
+        sb = T.SB_lift(success)
+        # which call produced the reported verdict?  its joint vector must be the one returned and stored
+        if bool(sb):
+            winners = [c for c in calls if T.SB_lift(c['success']) is sb or bool(T.SB_lift(c['success']))]
+            g.holds('success: the returned joint vector is the one the succeeding solver call produced',
+                    any(all(x is y for x, y in zip(theta.reshape(-1), c['theta'].reshape(-1))) for c in winners))
+            g.eq('success: the arm stores the returned joint vector', a._theta.reshape(-1), theta.reshape(-1))
+            if self.constrained:
+                # the limit-respecting path re-evaluates FK of the solution: the reported pose is the pose of the stored
+                # vector (within the solver tolerances of the goal by the callee contract)
+                want = S.PoE(a._end_effector_home.gTM(), a.screw_list, list(a._theta.reshape(-1)))
+                g.eq('success: the reported tool pose is the pose of the stored solution' + z, a.getEEPos().gTM(), want, tol=5e-6)
+            else:
+                g.eq('success: the reported tool pose is the goal' + z, a.getEEPos().gTM(), Mg, tol=5e-6)
+        else:
+            want = S.PoE(a._end_effector_home.gTM(), a.screw_list, list(a._theta.reshape(-1)))
+            g.eq('failure: the reported tool pose is the pose of the stored joint vector' + z, a.getEEPos().gTM(), want, tol=5e-6)
+
+
+register(type('Arm_IK_free_writeback', (_ArmIK,), dict(constrained=False, target=_ARM + ':Arm.IK', replayable=False)))
+register(type('Arm_IK_constrained_writeback', (_ArmIK,), dict(constrained=True, target=_ARM + ':Arm.constrainedIK', replayable=False)))
